@@ -55,7 +55,7 @@ class Ledger:
         if self.fault_rate and ch.coin(self.fault_rate, "fault", "gen-fault"):
             kind = ch.pick(["misfit", "raise"], "fault", "gen-fault-kind")
         if kind == "raise":
-            self.entries.append((name, args, kind, None))
+            self.entries.append((name, tuple(str(a) for a in args), kind, None))
             self.run.fault("generator_raises")
             self.run.probe("generator_fault")
             self.fault_pending = ("raise", name)
@@ -63,18 +63,20 @@ class Ledger:
             raise RuntimeError("injected generator failure in %s" % name)
         if kind == "misfit":
             value = ch.pick(["x", "12a", "", "123456"], "fault", "misfit-value")
+            args = tuple(str(a) for a in args)
             self.run.fault("generator_misfit")
             self.run.probe("generator_fault")
             self.fault_pending = ("misfit", name, value)
         else:
             n = ch.rng_range(2, 4, "work", "genlen")
             value = "".join(ch.pick("0123456789", "work", "gendigit") for _ in range(n))
+        args = tuple(str(a) for a in args)
         self.entries.append((name, args, kind, value))
         self.run.event("gen", name, kind, value)
         return value
 
-    def fitting_values(self, name) -> set:
-        return {e[3] for e in self.entries if e[0] == name and e[2] == "fit"}
+    def fitting_values(self, name, args=None) -> set:
+        return {e[3] for e in self.entries if e[0] == name and e[2] == "fit" and (args is None or e[1] == args)}
 
 
 def clear_constraint_caches(constraints) -> None:
@@ -117,6 +119,10 @@ class Monitor:
 
     # ---- exception sink -------------------------------------------------------
     def on_exception(self, e, note):
+        if self.ledger.fault_pending and not self.in_oracle:
+            # the product logged (and dropped) the operation that hit the injected generator fault
+            self.run._gen_fault_surfaced = True
+            self.run.probe("generator_fault_surfaced")
         if self.in_oracle:
             self.exc_during_eval += 1
         else:
@@ -172,16 +178,26 @@ class Monitor:
         if not self.spec.gen_fields:
             return
         for name in self.spec.gen_fields:
-            vals = self.ledger.fitting_values(name)
             for node in tree.find_all_trees(_nt(name)):
                 txt = str(node)
+                # the value computed from the argument values recorded with the tree
+                by_sym = {src.symbol.name()[1:-1]: str(src) for src in node.sources}
+                deps = self.spec.generators[name][1]
+                if any(d not in by_sym for d in deps):
+                    self.once("C16", "generator-output", "generated-field-without-recorded-arguments:" + where, "%s: <%s> %r has sources %s but the generator takes %s" % (where, name, txt, sorted(by_sym), deps))
+                    continue
+                args = tuple(by_sym[d] for d in deps)
+                vals = self.ledger.fitting_values(name, args)
+                if txt not in vals and txt in self.ledger.fitting_values(name):
+                    self.once("C16", "generator-output", "generated-field-stale-for-recorded-arguments:" + where, "%s: <%s> holds %r but the arguments recorded with the tree are %r, for which the generator returned only %s\nspec:\n%s" % (where, name, txt, args, sorted(vals)[:6], self.text))
+                    continue
                 if txt not in vals:
                     misfits = {e[3] for e in self.ledger.entries if e[0] == name and e[2] == "misfit"}
                     sig = "generated-field-holds-misfit-value" if txt in misfits else "generated-field-not-generator-output"
                     self.once("C16", "generator-output", sig + ":" + where, "%s: <%s> holds %r, generator returned only %s (misfits %s)\nspec:\n%s" % (where, name, txt, sorted(vals)[:8], sorted(misfits), self.text))
-                for ch_ in node.children:
-                    if not ch_.read_only:
-                        self.once("C16", "generator-output", "generated-children-not-read-only:" + where, "%s: children of generated <%s> %r are not marked read-only" % (where, name, txt))
+                if any(not ch_.read_only for ch_ in node.children):
+                    # the marking is Fandango's mechanism, not the property: only counted
+                    self.run.probe("generated_children_not_read_only")
 
 
 def _nt(name):
